@@ -374,6 +374,13 @@ func (vc *VC) modHeapNames(fc *FuncContract, g *ssa.Function) []string {
 				continue
 			}
 			if id, ok := x.X.(*EIdent); ok && g.Pkg != nil {
+				// "T.f": field f of every object of the struct type T
+				if tn, ok := g.Pkg.Pkg.Scope().Lookup(id.Name).(*types.TypeName); ok {
+					if _, isStruct := tn.Type().Underlying().(*types.Struct); isStruct {
+						out = append(out, fieldHeapName(tn.Type(), x.Name))
+						continue
+					}
+				}
 				for _, imp := range g.Pkg.Pkg.Imports() {
 					if imp.Name() == id.Name {
 						out = append(out, globalName(imp.Path(), x.Name))
